@@ -74,6 +74,7 @@ type gen struct {
 	impure   bool
 	coro     bool
 	hasDst   bool
+	retZero  string // "return 0" / "return nothing": an early exit usable inside io_bind blocks ("" = none)
 	loopVars map[string]bool // counted-loop indexes must not be assigned
 	nlocal   int
 	depth    int
@@ -432,7 +433,7 @@ func (g *gen) stmts(n int, budget int) {
 }
 
 func (g *gen) stmt(budget int) {
-	kind := g.draw(0, 20, "stmt")
+	kind := g.draw(0, 22, "stmt")
 	as := g.assignable()
 	switch {
 	case kind <= 5 && len(as) > 0: // plain assignment
@@ -524,6 +525,8 @@ func (g *gen) stmt(budget int) {
 			g.line("%s = %s", a1.name, a2.name)
 			break
 		}
+	case (kind == 21 || kind == 22) && g.impure && !g.coro && g.retZero != "" && g.depth == 1:
+		g.ioBindStmt()
 	case kind == 17 && budget > 0 && len(g.arrays) > 0: // loop whose condition indexes with a variable the body changes
 		g.indexedWhile()
 	case kind == 14 && g.impure && len(g.helps) > 0:
@@ -676,6 +679,164 @@ func (g *gen) indexedWhile() {
 	g.line("}")
 }
 
+// ioBindStmt binds the local reader r to a byte array of the struct and peeks
+// from it under a length guard. With some probability an inner io_bind to
+// another array establishes a length fact first; the peek that follows the
+// inner block is then either guarded again (sound) or not (a shape that only a
+// checker which lets the inner fact leak would accept).
+func (g *gen) ioBindStmt() {
+	var bytes []array
+	for _, ar := range g.arrays {
+		if ar.width == 8 {
+			bytes = append(bytes, ar)
+		}
+	}
+	if len(bytes) == 0 {
+		return
+	}
+	outer := bytes[g.draw(0, len(bytes)-1, "bindouter")]
+	var targets []variable
+	for _, v := range g.assignable() {
+		if v.local && v.max.Cmp(typeMax(v.width)) == 0 && (v.width == 32 || v.width == 64) && !g.loopVars[v.name] {
+			targets = append(targets, v)
+		}
+	}
+	if len(targets) == 0 {
+		return
+	}
+	tv := targets[g.draw(0, len(targets)-1, "bindtarget")]
+	nbytes := []int{1, 2, 3, 4}[g.draw(0, 3, "bindn")]
+	if tv.width == 64 {
+		nbytes = []int{1, 2, 4, 5, 7, 8}[g.draw(0, 5, "bindn64")]
+	}
+	peek := fmt.Sprintf("r.peek_u%d%s_as_u%d()", 8*nbytes, []string{"le", "be"}[g.draw(0, 1, "bindend")], tv.width)
+	if nbytes == 1 {
+		peek = fmt.Sprintf("r.peek_u8_as_u%d()", tv.width)
+	} else if 8*nbytes == tv.width {
+		peek = fmt.Sprintf("r.peek_u%d%s()", tv.width, []string{"le", "be"}[g.draw(0, 1, "bindend2")])
+	}
+	g.line("io_bind (io: r, data: %s[..], history_position: 0) {", outer.name)
+	g.depth++
+	leaked := false
+	if len(bytes) > 1 && g.chance(50, "bindinner") {
+		inner := bytes[g.draw(0, len(bytes)-1, "bindinnerarr")]
+		g.line("io_bind (io: r, data: %s[..], history_position: 0) {", inner.name)
+		g.depth++
+		g.line("if r.length() < %d {", nbytes)
+		g.line("    %s", g.retZero)
+		g.line("}")
+		g.depth--
+		g.line("}")
+		leaked = true
+	}
+	guarded := !(leaked && g.chance(35, "bindunguarded"))
+	if guarded {
+		g.line("if r.length() >= %d {", nbytes)
+		g.depth++
+	}
+	g.line("%s = %s", tv.name, peek)
+	if g.chance(40, "bindskip") {
+		g.line("r.skip_u32_fast!(actual: %d, worst_case: %d)", nbytes, nbytes)
+	}
+	if guarded {
+		g.depth--
+		g.line("}")
+	}
+	g.depth--
+	g.line("}")
+}
+
+// fastSeq emits a run of unchecked fast I/O calls under one length guard
+// ("length() >= K" or the strict "length() > K-1"), whose sizes add up to
+// exactly what the guard proves, with the equal checked slow path in the else
+// branch (so that the result does not depend on buffer availability).
+func (g *gen) fastSeq() {
+	parts := []int{}
+	total := 0
+	for n := g.draw(1, 4, "fsn"); n > 0; n-- {
+		p := []int{1, 1, 2, 2, 3, 4}[g.draw(0, 5, "fsp")]
+		parts = append(parts, p)
+		total += p
+	}
+	strict := g.chance(50, "fsstrict")
+	guard := fmt.Sprintf(">= %d", total)
+	if strict {
+		guard = fmt.Sprintf("> %d", total-1)
+	}
+	if g.hasDst && g.chance(50, "fswrite") {
+		g.line("if args.dst.length() %s {", guard)
+		g.depth++
+		for _, p := range parts {
+			switch p {
+			case 1:
+				g.line("args.dst.write_u8_fast!(a: c8)")
+			case 2:
+				g.line("args.dst.write_u16be_fast!(a: w16)")
+			case 3:
+				g.line("args.dst.write_u24le_fast!(a: (r32 & 0xFFFFFF))")
+			default:
+				g.line("args.dst.write_u32le_fast!(a: r32)")
+			}
+		}
+		g.depth--
+		g.line("} else {")
+		g.depth++
+		for _, p := range parts {
+			switch p {
+			case 1:
+				g.line("args.dst.write_u8?(a: c8)")
+			case 2:
+				g.line("args.dst.write_u8?(a: (w16 >> 8) as base.u8)")
+				g.line("args.dst.write_u8?(a: (w16 & 0xFF) as base.u8)")
+			case 3:
+				g.line("args.dst.write_u8?(a: (r32 & 0xFF) as base.u8)")
+				g.line("args.dst.write_u8?(a: ((r32 >> 8) & 0xFF) as base.u8)")
+				g.line("args.dst.write_u8?(a: ((r32 >> 16) & 0xFF) as base.u8)")
+			default:
+				g.line("args.dst.write_u8?(a: (r32 & 0xFF) as base.u8)")
+				g.line("args.dst.write_u8?(a: ((r32 >> 8) & 0xFF) as base.u8)")
+				g.line("args.dst.write_u8?(a: ((r32 >> 16) & 0xFF) as base.u8)")
+				g.line("args.dst.write_u8?(a: (r32 >> 24) as base.u8)")
+			}
+		}
+		g.depth--
+		g.line("}")
+		return
+	}
+	g.line("if args.src.length() %s {", guard)
+	g.depth++
+	for _, p := range parts {
+		switch p {
+		case 1:
+			g.line("c8 = args.src.peek_u8()")
+		case 2:
+			g.line("w16 = args.src.peek_u16be()")
+		case 3:
+			g.line("r32 = args.src.peek_u24le_as_u32()")
+		default:
+			g.line("r32 = args.src.peek_u32le()")
+		}
+		g.line("args.src.skip_u32_fast!(actual: %d, worst_case: %d)", p, p)
+	}
+	g.depth--
+	g.line("} else {")
+	g.depth++
+	for _, p := range parts {
+		switch p {
+		case 1:
+			g.line("c8 = args.src.read_u8?()")
+		case 2:
+			g.line("w16 = args.src.read_u16be?()")
+		case 3:
+			g.line("r32 = args.src.read_u24le_as_u32?()")
+		default:
+			g.line("r32 = args.src.read_u32le?()")
+		}
+	}
+	g.depth--
+	g.line("}")
+}
+
 // ioStmt emits one I/O idiom inside a coroutine.
 func (g *gen) ioStmt() {
 	var u8s, u32s, u64s []variable
@@ -698,7 +859,9 @@ func (g *gen) ioStmt() {
 		}
 		return vs[g.draw(0, len(vs)-1, what)], true
 	}
-	switch g.draw(0, 9, "io") {
+	switch g.draw(0, 12, "io") {
+	case 10, 11, 12:
+		g.fastSeq()
 	case 0:
 		if v, ok := pick(u8s, "io8"); ok {
 			g.line("%s = args.src.read_u8?()", v.name)
@@ -813,7 +976,10 @@ func (g *gen) startFunc(impure, coro bool, args []variable) {
 	g.declLocals()
 	if coro {
 		g.line("var st : base.status")
+	} else if impure {
+		g.line("var r : base.io_reader")
 	}
+	g.retZero = ""
 }
 
 // Gen draws a program.
@@ -889,6 +1055,7 @@ func Gen(t *rapid.T, pkg string, o *Options) Prog {
 	for i := 0; i < g.draw(0, 2, "nhelp"); i++ {
 		fmt.Fprintf(w, "pri func foo.h%d!(a: base.u32) {\n", i)
 		g.startFunc(true, false, []variable{{name: "args.a", width: 32, max: typeMax(32), arg: true}})
+		g.retZero = "return nothing"
 		g.stmts(g.draw(1, 4, "nh"), 1)
 		fmt.Fprintf(w, "}\n\n")
 		g.helps = append(g.helps, fmt.Sprintf("h%d", i))
@@ -921,6 +1088,7 @@ func Gen(t *rapid.T, pkg string, o *Options) Prog {
 	for i := 0; i < g.draw(1, 2, "nstep"); i++ {
 		fmt.Fprintf(w, "pub func foo.step_%d!(a: base.u32, b: base.u8) base.u32 {\n", i)
 		g.startFunc(true, false, []variable{{name: "args.a", width: 32, max: typeMax(32), arg: true}, {name: "args.b", width: 8, max: typeMax(8), arg: true}})
+		g.retZero = "return 0"
 		g.stmts(g.draw(2, 8, "nstep"), 2)
 		e, _ := g.expr(32, typeMax(32), 3)
 		g.line("return %s", e)
